@@ -494,6 +494,8 @@ where
         if self.is_closed.load(Ordering::SeqCst) {
             return Ok(());
         }
+        #[cfg(transparencies_stretto_verif)]
+        crate::verif::yield_point("clear:after_check");
 
         self.clear_in().await
     }
@@ -575,6 +577,8 @@ where
         if self.is_closed.load(Ordering::SeqCst) {
             return Ok(());
         }
+        #[cfg(transparencies_stretto_verif)]
+        crate::verif::yield_point("wait:after_check");
 
         let wg = WaitGroup::new();
         match self.insert_buf_tx.try_send(Item::Wait(Signal::new(&wg))) {
